@@ -247,3 +247,52 @@ func GenTwoBranchReclaimFamily(t *rapid.T) *World {
 	w.Cycles = []CycleScript{{}}
 	return w
 }
+
+// GenPriorityFlipFamily: one scheduler process for all cycles; a full cluster of running workloads of one queue whose
+// priority class "flip" starts below the preemptibility boundary; after the first cycle an administrator changes the
+// value of the class (across the boundary of 100, above the pending workload's priority, or back below) and the
+// pending workload is given a high class. Which pods are eligible victims in the later cycles follows the class
+// as it is THEN. Judged by the general C06 oracle on the model of each cycle.
+func GenPriorityFlipFamily(t *rapid.T) *World {
+	w := &World{Family: "priority-flip", PersistentScheduler: true}
+	c := &w.Config
+	c.FullHierarchy = true
+	c.Actions = []string{"allocate", "preempt"}
+	c.PlacementGPU = pickS(t, "placementGpu", "binpack", "spread")
+	c.PlacementCPU = "binpack"
+	c.MaxConsolidation = 16
+	nNodes := between(t, 1, 2, "nNodes")
+	gpn := pickInt(t, "gpusPerNode", 1, 2, 4)
+	total := nNodes * gpn
+	for i := 0; i < nNodes; i++ {
+		w.Nodes = append(w.Nodes, Node{Name: fmt.Sprintf("n%d", i), GPUs: gpn, GPUMem: 16000, CPU: 32000, MemMB: 65536, Pods: 110, Labels: map[string]string{}})
+	}
+	free := QRes{Quota: -1, Limit: -1, Weight: 1}
+	w.Queues = []Queue{{Name: "root", GPU: QRes{Quota: float64(total), Limit: -1, Weight: 1}, CPU: free, Mem: free},
+		{Name: "x", Parent: "root", GPU: QRes{Quota: float64(total), Limit: -1, Weight: 1}, CPU: free, Mem: free}}
+	old := pickInt(t, "flipOld", 40, 60, 90)
+	w.PriorityClasses = append(DefaultPriorityClasses(), PriorityClass{Name: "flip", Value: old})
+	for k := 0; k < total; k++ {
+		class := "flip"
+		if k > 0 && chance(t, 3, "otherRunner") {
+			class = pickS(t, "otherClass", "train", "build")
+		}
+		name := fmt.Sprintf("run%d", k)
+		w.Groups = append(w.Groups, Group{Name: name, Queue: "x", PriorityClass: class, MinMember: 1, CreatedMin: 300 + k, LastStartMin: 1000,
+			Pods: []Pod{{Name: name + "-p0", CPU: 100, MemMB: 64, GPUs: 1, State: Running, Node: fmt.Sprintf("n%d", k/gpn), CreatedMin: 300}}})
+	}
+	// the pending workload cannot displace anybody in the first cycle: lowest class, preemptible
+	w.Groups = append(w.Groups, Group{Name: "want", Queue: "x", PriorityClass: "train", MinMember: 1, CreatedMin: 10,
+		Pods: []Pod{{Name: "want-p0", CPU: 100, MemMB: 64, GPUs: 1, State: Pending, CreatedMin: 10}}})
+	for i, n := 0, between(t, 2, 4, "cycles"); i < n; i++ {
+		w.Cycles = append(w.Cycles, CycleScript{BindMode: 0, KeepRequests: false, Salt: i})
+	}
+	gap := uniform(t, len(w.Cycles)-1, "flipGap")
+	w.Cycles[gap].Mutations = append(w.Cycles[gap].Mutations,
+		Mutation{Kind: "pc-set", Target: "flip", Value: strconv.Itoa(pickInt(t, "flipNew", 110, 130, 1000, 99, 70))},
+		Mutation{Kind: "pg-priorityclass", Target: "want", Value: pickS(t, "wantClass", "inference", "inference", "build", "build-preemptible")})
+	if gap+1 < len(w.Cycles)-1 && chance(t, 3, "flipBack") {
+		w.Cycles[gap+1].Mutations = append(w.Cycles[gap+1].Mutations, Mutation{Kind: "pc-set", Target: "flip", Value: strconv.Itoa(old)})
+	}
+	return w
+}
